@@ -79,7 +79,7 @@ func Deb822Field(r *core.Rand, name string) model.Field {
 			case 1: // indented
 				c.Content = r.Pick([]string{" ", "  ", "\t", " \t"}) + ValueLine(r)
 			case 2:
-				c.Content = r.Pick([]string{"#not a comment", ". x", "..", "-", "Key: value", "a:b", ".hidden"})
+				c.Content = r.Pick([]string{"#not a comment", ". x", "..", "-", "Key: value", "a:b", ".hidden", " .", "  .", "\t.", " . ."})
 			default:
 				c.Content = ValueLine(r)
 			}
